@@ -15,6 +15,7 @@ import (
 	"crypto/elliptic"
 	cryptorand "crypto/rand"
 	"crypto/sha256"
+	"crypto/sha512"
 	"crypto/x509"
 	"encoding/base64"
 	"encoding/json"
@@ -491,15 +492,33 @@ func (j *c03JWS) signingInputs(detached []byte) [][]byte {
 	return [][]byte{enc, raw}
 }
 
-// c03VerifyES256 is a stdlib-only ES256 check.
+// c03VerifyES256 is a stdlib-only ECDSA JWS signature check: ES256 for P-256 keys (everything the node creates itself),
+// ES384 / ES512 for imported P-384 / P-521 keys (the hash and the r||s width follow the curve of the key).
 func c03VerifyES256(input, sig []byte, pub *ecdsa.PublicKey) bool {
-	if pub == nil || pub.Curve != elliptic.P256() || len(sig) != 64 {
+	if pub == nil || pub.Curve == nil {
 		return false
 	}
-	d := sha256.Sum256(input)
-	r := new(big.Int).SetBytes(sig[:32])
-	s := new(big.Int).SetBytes(sig[32:])
-	return ecdsa.Verify(pub, d[:], r, s)
+	var digest []byte
+	switch pub.Curve {
+	case elliptic.P256():
+		d := sha256.Sum256(input)
+		digest = d[:]
+	case elliptic.P384():
+		d := sha512.Sum384(input)
+		digest = d[:]
+	case elliptic.P521():
+		d := sha512.Sum512(input)
+		digest = d[:]
+	default:
+		return false
+	}
+	size := (pub.Curve.Params().BitSize + 7) / 8
+	if len(sig) != 2*size {
+		return false
+	}
+	r := new(big.Int).SetBytes(sig[:size])
+	s := new(big.Int).SetBytes(sig[size:])
+	return ecdsa.Verify(pub, digest, r, s)
 }
 
 func c03PubFromJWK(m map[string]any) *ecdsa.PublicKey {
